@@ -43,6 +43,7 @@ def applyPlan (dir : Dir) (B : Nat) (src : DataSess) (cb : Option Bool) (st : St
   | .push _ _ :: rest => applyPlan dir B src cb st d rest          -- not an action of the catch-up
   | .outTs _ :: rest => applyPlan dir B src cb st d rest
   | .outItem _ :: rest => applyPlan dir B src cb st d rest
+  | .cache _ _ :: rest => applyPlan dir B src cb st d rest
   | .replay pos :: _ =>
     let dir' := dir.setCache B st
     let r := feedCache (dir'.main.region src.hdrLen) src cb st { B := B, d := d } pos.start pos.stop pos.firstFull
